@@ -102,7 +102,7 @@ func computeBranchLabels(c *Ctx) *branchLabels {
 		// parameters written under a labelled key
 		labs := make([]string, len(fn.Params))
 		any := false
-		allInstrs(fn, func(in ssa.Instruction) {
+		allInstrsShallow(fn, func(in ssa.Instruction) {
 			put, ok := isBucketCall(in, "Put")
 			if !ok {
 				return
@@ -189,7 +189,7 @@ func (bl *branchLabels) sinksIn(fn *ssa.Function) []branchSink {
 		}
 		out = append(out, branchSink{a.In, st.Val, branchOfName(a.Field), "store to " + shortType(a.Type) + "." + a.Field})
 	}
-	allInstrs(fn, func(in ssa.Instruction) {
+	allInstrsShallow(fn, func(in ssa.Instruction) {
 		cl, ok := in.(*ssa.Call)
 		if !ok {
 			return
